@@ -154,6 +154,9 @@ class Program:
         self._load()
         self._link()
         if os.environ.get("VERIF_SA_NO_INLINE") != "1":
+            from .lower import lower_program
+
+            lower_program(self)
             from .ntuple import canonicalise_namedtuples
 
             canonicalise_namedtuples(self)
